@@ -583,10 +583,12 @@ def main():
                                       'skoolmacro.PagingTracer.write_port', 'skoolmacro.AudioTracer128.write_port', 'rzxplay.RZXTracer.write_port')]
     items += [('memaccess', 'pagingtracer.Memory'), ('memaccess', 'skoolutils.Memory')]
     items += [('skoolmem', 'bank'), ('skoolmem', 'out7ffd'), ('skoolmem', 'copy'), ('skoolmem', 'pagingtracer.out7ffd')]
+    items += [('step', 'CMIOSimulator-rec', '48K', False) + s for s in slots]
+    items += [('step', 'CMIOSimulator-rec', '48K', True) + s for s in slots if s in simcheck.IO_SLOTS]
+    items += [('step', 'CMIOSimulator', '48K', False, 'interrupt', 0)]
     if args.tier == 'thorough':
         items += [('step', 'CMIOSimulator', '48K', False) + s for s in slots]
         items += [('step', 'CMIOSimulator', '48K', True) + s for s in slots if s in simcheck.IO_SLOTS]
-        items += [('step', 'CMIOSimulator', '48K', False, 'interrupt', 0)]
     if args.only:
         items = [i for i in items if args.only in harness.item_name(i)]
     rep = harness.Report(
@@ -594,7 +596,7 @@ def main():
         functions=['skoolkit.simulator.Simulator.* closures (all slots) and accept_interrupt', 'skoolkit.pagingtracer.Memory.__getitem__/__setitem__/out7ffd',
                    'skoolkit.pagingtracer.PagingTracer.write_port / write_port_with_border_list', 'skoolkit.skoolmacro.PagingTracer.write_port / AudioTracer128.write_port',
                    'skoolkit.rzxplay.RZXTracer.write_port', 'skoolkit.skoolutils.Memory.__getitem__/__setitem__/bank/out7ffd/copy']
-        + (['skoolkit.cmiosimulator.CMIOSimulator.* (thorough)'] if args.tier == 'thorough' else []),
+        + ['skoolkit.cmiosimulator.CMIOSimulator.* closures (contend() recorded in quick, real in thorough)'],
         bounds={'step': 'one instruction / interrupt / port write / memory access from any state satisfying the invariant (inductive step: histories of any length follow)',
                 'paging': 'port 0..65535, value 0..255, previous 0x7FFD value 0..255 all symbolic; bank and ROM contents symbolic arrays',
                 'outside': 'the C implementation (OUT macro / out7ffd in c/csimulator.c) - see C06; Memory.convert (creates bytearrays: C boundary)'},
